@@ -7,6 +7,7 @@ compute_emissions (quick: one synthetic trajectory; thorough: additionally a sim
 
 from __future__ import annotations
 
+import hashlib
 import itertools
 
 from vf.ref import balance, emis_common as ec
@@ -53,6 +54,14 @@ def sublattices(tier, seed):
                 'cases': [{'traj': tname, 'opt': list(c)} for c in combos],
             }
         )
+    # the same product on a model whose LTO data are mutable containers (scaled by arithmetic)
+    subs.append(
+        {
+            'name': 'options x syn8 x model with scaled (mutable) LTO data',
+            'axes': {k: ec.OPTION_AXES[k] for k in keys},
+            'cases': [{'traj': 'syn8', 'opt': list(c), 'pm': 'scaled-lto'} for c in combos],
+        }
+    )
     return subs
 
 
@@ -91,7 +100,7 @@ def _opts(case):
 
 def run_case(case):
     r = _run(case)
-    me = {'traj': case['traj'], 'opt': case['opt']}
+    me = {k: case[k] for k in ('traj', 'opt', 'pm') if k in case}
     if r['violations'] and _STATE.get('prev') is not None:
         # configurations evaluated earlier in this worker (the first one and the one just before):
         # needed to replay violations caused by state that survives a configuration reload (caches)
@@ -118,12 +127,51 @@ def replay(case):
     return r['violations']
 
 
+def _outcome_sig(kind, res):
+    if kind != 'ok':
+        return (kind, type(res).__name__, str(res)[:120])
+    import numpy as np
+
+    from AEIC.performance.types import ThrustMode
+
+    def flat(v):
+        if isinstance(v, (np.ndarray, float, int, np.floating, np.integer)):
+            return np.asarray(v, dtype=float).ravel()
+        return np.array([float(v[m]) for m in ThrustMode], dtype=float)
+
+    h = []
+    for part in ('trajectory_emissions', 'trajectory_indices', 'lto_emissions', 'lto_indices', 'apu_emissions', 'gse_emissions', 'total_emissions'):
+        d = getattr(res, part, None)
+        if d is None:
+            continue
+        for sp in sorted(d.keys(), key=str):
+            a = flat(d[sp])
+            h.append((part, str(sp), len(a), hashlib.sha1(a.tobytes()).hexdigest()[:16]))
+    for name in ('fuel_burn_per_segment', 'total_fuel_burn', 'lifecycle_co2'):
+        x = getattr(res, name, None)
+        if x is not None:
+            h.append((name, hashlib.sha1(np.asarray(x, dtype=float).tobytes()).hexdigest()[:16]))
+    return ('ok', len(h), fingerprint(h))
+
+
 def _run(case):
     opts = _opts(case)
     traj, spec = _STATE['trajs'][case['traj']]
     pm, fuel = _STATE['pm'], _STATE['fuel']
+    if case.get('pm') == 'scaled-lto':
+        pm = ec.scaled_lto_pm()  # fresh per case: the case is self-contained
     kind, res = ec.evaluate(opts, traj, fuel, pm)
     vio = []
+    # a second computation with the same model under the SAME loaded configuration must end the same way
+    kind2, res2 = ec.evaluate(opts, traj, fuel, pm, reload=False)
+    if kind != 'config-raise':
+        a, b = _outcome_sig(kind, res), _outcome_sig(kind2, res2)
+        if a != b:
+            v = V('second-call-differs', f'first computation: {a[:2]}, second computation under the same loaded configuration and '
+                  f'model: {b[:2]} (model {case.get("pm", "shipped")}) under {opts}')
+            vio.append(v)
+            if kind2 == 'raise' and type(res2).__name__ in ('KeyError', 'AttributeError', 'TypeError', 'IndexError', 'AssertionError'):
+                vio.append(V(f'internal-error:{type(res2).__name__}', f'second computation: {type(res2).__name__}: {str(res2)[:200]} under {opts}'))
     if kind == 'ok':
         e = res
         lto_ff = {m.value: float(pm.lto.fuel_flow[m]) for m in pm.lto.fuel_flow}
@@ -139,7 +187,7 @@ def _run(case):
     cls = type(ex).__name__
     named = [opts[k] for k in ec.METHOD_OPTS if str(opts[k]).lower() != 'none' and str(opts[k]).lower() in msg]
     if isinstance(ex, (NotImplementedError, ValueError, RuntimeError)) and named and kind == 'raise':
-        return {'outcome': f'refused:{cls}:{named[0]}', 'nontrivial': True, 'violations': []}
+        return {'outcome': f'refused:{cls}:{named[0]}', 'nontrivial': True, 'violations': vio}
     finding = None
     if cls == 'AttributeError' and 'thrust_percentage' in msg:
         finding = 'C11-foa3-pmvol-attribute-error'
